@@ -53,6 +53,8 @@ def spec_strategy(draw):
     else:
         kind = draw(st.sampled_from(['all', 'all', 'close']))
         spec['consume'] = {'kind': kind, 'at': draw(st.integers(0, spec['n'] + 1)) if kind != 'all' else 0}
+    # after an early stop the same Stream object is iterated again at once: the bounds hold across the two passes
+    spec['reiterate'] = spec['consume']['kind'] != 'all' and not spec['unbounded'] and draw(st.booleans())
     spec['sched'] = draw(sched_strategy(max_len=200, est_steps=3000, depth=4))
     return spec
 
@@ -159,6 +161,20 @@ def run_case(spec):
         finally:
             box['consuming'] = False
         it.close()
+        if spec.get('reiterate') and err is None:
+            # second pass over the same stream object, started right after the early stop
+            box['handed'] = src.pulled
+            box['consuming'] = True
+            try:
+                for x in s:
+                    box['handed'] += 1
+                    outs += 1
+            except SimAbort:
+                raise
+            except BaseException as e:
+                err = e
+            finally:
+                box['consuming'] = False
         for p in cleanup:
             p.shutdown()
         return outs, err
@@ -188,7 +204,7 @@ def run_case(spec):
     return CaseInfo(
         nontrivial=box['max_ahead'] >= max(1, bound - 3) or attained,
         descriptor=[spec['stages'], spec['n'], spec['unbounded'], spec['consume'], spec['src_delays'], spec['cons_delays'], box['max_ahead']],
-        classes=(kinds, 'attained' if attained else f"slack{min(bound - box['max_ahead'], 4)}", 'unbounded' if spec['unbounded'] else 'finite'),
+        classes=(kinds, 'attained' if attained else f"slack{min(bound - box['max_ahead'], 4)}", 'unbounded' if spec['unbounded'] else 'finite', 'reiterated' if spec.get('reiterate') else 'single_pass'),
         metrics={f"ahead_minus_bound[{kinds if '+' not in kinds else 'chain'}]": box['max_ahead'] - bound, 'steps': out.sim.steps, 'max_ahead': box['max_ahead']},
         sample={'stages': spec['stages'], 'n': spec['n'], 'unbounded': spec['unbounded'], 'bound': bound, 'max_ahead': box['max_ahead'], 'max_running': box['max_running'], 'outs': outs},
     )
